@@ -37,6 +37,66 @@ impl vstd::std_specs::core::IndexSpecImpl<usize> for Line {
     open spec fn index_req(&self, index: &usize) -> bool { *index < self.cells@.len() }
 }
 
+impl vstd::std_specs::core::IndexSpecImpl<RangeFull> for Line {
+    open spec fn index_req(&self, index: &RangeFull) -> bool { true }
+}
+
 impl vstd::std_specs::core::IndexSpecImpl<Range<usize>> for Line {
     open spec fn index_req(&self, index: &Range<usize>) -> bool { index.start <= index.end <= self.cells@.len() }
+}
+
+pub open spec fn cell_is_default(c: Cell) -> bool { c.0 == ' ' && c.1.is_default_spec() }
+
+/// [C10] number of trailing default cells (blank, default pen) of a row
+pub open spec fn trailing_defaults(c: Seq<Cell>) -> int
+    decreases c.len(),
+{
+    if c.len() == 0 || !cell_is_default(c.last()) { 0 } else { 1 + trailing_defaults(c.drop_last()) }
+}
+
+pub proof fn lemma_trailing_defaults(c: Seq<Cell>)
+    ensures
+        0 <= trailing_defaults(c) <= c.len(),
+        forall|i: int| c.len() - trailing_defaults(c) <= i < c.len() ==> cell_is_default(#[trigger] c[i]),
+        trailing_defaults(c) < c.len() ==> !cell_is_default(c[c.len() - trailing_defaults(c) - 1]),
+    decreases c.len(),
+{
+    if c.len() > 0 && cell_is_default(c.last()) {
+        lemma_trailing_defaults(c.drop_last());
+        assert forall|i: int| c.len() - trailing_defaults(c) <= i < c.len() implies cell_is_default(#[trigger] c[i]) by {
+            if i < c.len() - 1 { assert(c[i] == c.drop_last()[i]); }
+        }
+        if trailing_defaults(c) < c.len() {
+            assert(c[c.len() - trailing_defaults(c) - 1] == c.drop_last()[c.drop_last().len() - trailing_defaults(c.drop_last()) - 1]);
+        }
+    }
+}
+
+/// [C10] the cells `from..` of `c` may be dropped: only default cells, and only when the row ends its logical line
+pub open spec fn droppable(c: Seq<Cell>, from: int, wrapped: bool) -> bool {
+    forall|d: int| from <= d < c.len() ==> !wrapped && cell_is_default(#[trigger] c[d])
+}
+
+/// [C10] `Line::extend` on a row `a` that continues into the next row `b` (wrap mark `wb`), target
+/// width `len`: `fin ++ rest` is `a ++ b` cell for cell; only trailing default cells of `b` may go,
+/// and only when `b` ends the logical line (then default padding follows); the wrap marks chain on
+pub open spec fn extend_joined(a: Seq<Cell>, b: Seq<Cell>, wb: bool, len: int, fin: Seq<Cell>, fin_wrapped: bool, done: bool, rest: Option<Line>) -> bool {
+    let took = fin.len() - a.len();
+    match rest {
+        Some(r) => {
+            &&& done && fin_wrapped && r.wrapped == wb
+            &&& r.cells@.len() > 0
+            &&& took == len - a.len()
+            &&& took + r.cells@.len() <= b.len()
+            &&& fin == a + b.take(took)
+            &&& r.cells@ == b.subrange(took, took + r.cells@.len())
+            &&& droppable(b, took + r.cells@.len(), wb)
+        },
+        None => if wb {
+            took == b.len() && fin == a + b && fin_wrapped
+        } else {
+            let live = b.len() - trailing_defaults(b);
+            done && !fin_wrapped && a.len() + live <= len && fin == a + b.take(live) + blank_cells(len - a.len() - live, Pen::default_spec())
+        },
+    }
 }
